@@ -191,7 +191,11 @@ func runProperty(id, tier, vdir string, known *core.KnownFindings, seed int,
 		}
 	}
 	if tier == "thorough" && len(res.Undecided) == 0 {
-		sv := selfValidate(id, verifDir)
+		var keep []*core.Model
+		for _, m := range models {
+			keep = append(keep, m)
+		}
+		sv := selfValidate(id, verifDir, keep)
 		res.Extra["self_validation"] = sv
 		if ms, ok := sv["missed"].([]string); ok && len(ms) > 0 {
 			fmt.Printf("SELF-VALIDATION property=%s: recorded changes no longer caught: %v (information; the verdict on /repo is unaffected)\n", id, ms)
